@@ -96,7 +96,9 @@ func (r *rw) expr(n ast.Node) string {
 					edits = append(edits, edit{r.off(x.Pos()), r.off(x.End()), "simrt." + x.Sel.Name})
 					return false
 				case "Cond", "NewCond":
-					bail("%s: sync.Cond is not supported by the instrumenter", r.site(x.Pos()))
+					stats["sync.Cond"]++
+					edits = append(edits, edit{r.off(x.Pos()), r.off(x.End()), "simrt." + x.Sel.Name})
+					return false
 				}
 			}
 		case *ast.CallExpr:
@@ -110,7 +112,7 @@ func (r *rw) expr(n ast.Node) string {
 				if sel.Sel.Name == "Go" && len(x.Args) == 1 && !x.Ellipsis.IsValid() {
 					if id, ok := sel.X.(*ast.Ident); !ok || id.Name != "simrt" {
 						stats["X.Go"]++
-						t := r.expr(x.Fun) + "(simrt.WrapE(" + r.q(x.Pos()) + ", " + r.expr(x.Args[0]) + "))"
+						t := r.expr(x.Fun) + "(simrt.WrapG(" + r.q(x.Pos()) + ", " + r.expr(x.Args[0]) + "))"
 						edits = append(edits, edit{r.off(x.Pos()), r.off(x.End()), t})
 						return false
 					}
